@@ -144,10 +144,18 @@ theorem foldLog_allB (L : List LogRec) (kv : Assoc (Assoc Idx)) (P : Bytes → B
     simp only [foldLog, List.foldl_cons]
     exact ih _ (kvPut_allB kv _ _ _ P h (hL x (by simp))) (fun y hy => hL y (by simp [hy]))
 
+/-- every record of the log is followed (at the same or a later position) by a record of its transaction
+that carries the commit mark -/
+def MarkedLog (L : List LogRec) : Prop :=
+  ∀ x ∈ L, ∃ y ∈ L, y.1.status = 1 ∧ y.1.txid = x.1.txid ∧ posLe (posOf x) (posOf y)
+
 structure MInv (s : State) (now : Nat) : Prop where
   shape : Shape s
   packed : Packed s
   recs : ∀ x ∈ allRecs s.files, x.1.ds = dsKV ∧ ¬ x.1.size > s.opt.seg ∧ (x.1.flag = flagSet ∨ x.1.flag = flagDelete)
+  bounds : ∀ x ∈ allRecs s.files, x.1.ts + x.1.ttl < 2 ^ 64
+  /-- every entry caches a record with flag Set or Delete and an expiry time within 64 bits -/
+  idxok : AllB s.kv fun _ _ i => (i.r.flag = flagSet ∨ i.r.flag = flagDelete) ∧ i.r.ts + i.r.ttl < 2 ^ 64
   sorted : KVRefine.KVSorted s.kv
   /-- the entry of a record's key is at the record's position or later -/
   latest : ∀ x ∈ allRecs s.files, ∃ i, look s.kv x.1.bucket x.1.key = some i ∧ posLe (posOf x) (i.fid, i.pos)
@@ -158,6 +166,7 @@ structure MInv (s : State) (now : Nat) : Prop where
       ((∃ x ∈ allRecs s.files, posOf x = (i.fid, i.pos) ∧ committedRec x.1 = committedRec i.r) ∨
        (dead i.r now = true ∧ i.fid < s.activeFid ∧ ∀ g ∈ s.files, i.fid < g.fid))
   committedIdx : AllB s.kv fun _ _ i => i.r.txid ∈ s.committed
+  marks : MarkedLog (allRecs s.files)
 
 theorem look_normKV (kv : Assoc (Assoc Idx)) (b k : Bytes) : look (normKV kv) b k = (look kv b k).map normIdx := by
   unfold look normKV
@@ -175,10 +184,17 @@ theorem allB_of_norm (kv : Assoc (Assoc Idx)) (P : Bytes → Bytes → Idx → P
 
 /-- the states key/value histories reach satisfy the invariant (records fitting the segment size in force) -/
 theorem minv_of_logInv (s : State) (now : Nat) (hi : LogInv s) (hp : Packed s)
-    (hL : ∀ x ∈ allRecs s.files, KVRefine.RecOk x.1) (hsz : ∀ x ∈ allRecs s.files, ¬ x.1.size > s.opt.seg) : MInv s now := by
+    (hL : ∀ x ∈ allRecs s.files, KVRefine.RecOk x.1) (hsz : ∀ x ∈ allRecs s.files, ¬ x.1.size > s.opt.seg)
+    (hmk : MarkedLog (allRecs s.files)) : MInv s now := by
   have hsorted := log_sorted s.files hp.fids hp.offs
   have hkv : normKV s.kv = kvOfLog (allRecs s.files) := hi.idx
-  refine ⟨hi.shape, hp, fun x hx => ⟨hi.kvOnly x hx, hsz x hx, (hL x hx).1⟩, ?_, ?_, ?_, ?_⟩
+  have hidxok : AllB s.kv fun _ _ i => (i.r.flag = flagSet ∨ i.r.flag = flagDelete) ∧ i.r.ts + i.r.ttl < 2 ^ 64 := by
+    have hsrc := foldLog_allB (allRecs s.files) [] (fun _ _ i => (i.r.flag = flagSet ∨ i.r.flag = flagDelete) ∧ i.r.ts + i.r.ttl < 2 ^ 64)
+      (by intro b m p hm; simp [aget?] at hm) (fun x hx => ⟨(hL x hx).1, (hL x hx).2⟩)
+    have := allB_of_norm s.kv _ (by rw [hkv]; exact hsrc)
+    intro b m p hm hpm
+    exact this b m p hm hpm
+  refine ⟨hi.shape, hp, fun x hx => ⟨hi.kvOnly x hx, hsz x hx, (hL x hx).1⟩, fun x hx => (hL x hx).2, hidxok, ?_, ?_, ?_, ?_, hmk⟩
   · -- sortedness of every bucket: from the normalised index
     intro b m hm
     have hbn : aget? (normKV s.kv) b = some (normBucket m) := by
@@ -620,6 +636,16 @@ theorem marked_covers (recs : List Rec) : ∀ q ∈ recs, ∃ r ∈ marked recs,
     · obtain ⟨r, hr, h1, h2⟩ := ih q hq'
       exact ⟨r, by simp [marked, hr], h1, h2⟩
 
+theorem marked_snoc (t : List Rec) (hne : t ≠ []) : ∃ init z, marked t = init ++ [z] ∧ z.status = 1 := by
+  induction t with
+  | nil => exact absurd rfl hne
+  | cons q rest ih =>
+    cases rest with
+    | nil => exact ⟨[], markLast q true, by simp [marked], by simp [markLast]⟩
+    | cons q2 rest2 =>
+      obtain ⟨init, z, h1, h2⟩ := ih (by simp)
+      exact ⟨markLast q false :: init, z, by simp only [marked] at h1 ⊢; simp [h1], h2⟩
+
 /-- the state after the rewrite transaction of one file (before the file is removed) -/
 theorem rewrite_step (s : State) (now : Nat) (h : MInv s now) (f : File) (hf : f ∈ s.files) (tid : Nat)
     (hne : (f.recs.filter (isSel s f now)).map (·.2) ≠ []) :
@@ -632,7 +658,8 @@ theorem rewrite_step (s : State) (now : Nat) (h : MInv s now) (f : File) (hf : f
     ∃ extra : List LogRec, allRecs s1.files = allRecs s.files ++ extra ∧ s1.kv = rawFold s.kv extra ∧
       (∀ x ∈ extra, s.activeFid < x.2.1 ∧ x.1.txid ∈ s1.committed ∧ x.1.ds = dsKV ∧ ¬ x.1.size > s.opt.seg ∧
         ∃ p ∈ f.recs, isSel s f now p = true ∧ x.1.bucket = p.2.bucket ∧ x.1.key = p.2.key ∧ vrec x.1 = vrec p.2 ∧ x.1.flag = p.2.flag) ∧
-      (∀ p ∈ f.recs, isSel s f now p = true → ∃ x ∈ extra, x.1.bucket = p.2.bucket ∧ x.1.key = p.2.key) := by
+      (∀ p ∈ f.recs, isSel s f now p = true → ∃ x ∈ extra, x.1.bucket = p.2.bucket ∧ x.1.key = p.2.key) ∧
+      MarkedLog extra := by
   intro recs s1
   -- the records to rewrite: key/value records of the log that fit
   have hrecsok : ∀ r ∈ retag tid recs, r.ds = dsKV ∧ ¬ r.size > (rotate s).opt.seg ∧ r.txid = tid := by
@@ -718,7 +745,33 @@ theorem rewrite_step (s : State) (now : Nat) (h : MInv s now) (f : File) (hf : f
     rw [← hex] at hr
     obtain ⟨x, hx, rfl⟩ := List.mem_map.mp hr
     exact ⟨x, hx, hb, hk⟩
-  refine ⟨hout, by rw [hs1]; exact hshape, hpk, by rw [hs1, hopt]; exact hropt, hactive1, ?_, ?_, ?_, hfidsfact, extra, ?_, ?_, ?_, hcover⟩
+  have hmarks : MarkedLog extra := by
+    obtain ⟨init, z, hmz, hzs⟩ := marked_snoc (retag tid recs) hretag_ne
+    rw [← hex] at hmz
+    obtain ⟨einit, elast, hsplit, _, hl2⟩ := List.map_eq_append_iff.mp hmz
+    obtain ⟨ez, hez, _⟩ : ∃ ez, elast = [ez] ∧ True := by
+      cases elast with
+      | nil => simp at hl2
+      | cons a as =>
+        cases as with
+        | nil => exact ⟨a, rfl, trivial⟩
+        | cons _ _ => simp at hl2
+    subst hez
+    have hezs : ez.1.status = 1 := by simp at hl2; rw [hl2]; exact hzs
+    have hsorted1 := log_sorted s1.files hpk.fids hpk.offs
+    rw [hs1, hfiles, List.pairwise_append] at hsorted1
+    have hsx := hsorted1.2.1
+    rw [hsplit, List.pairwise_append] at hsx
+    intro x hx
+    refine ⟨ez, by rw [hsplit]; simp, hezs, ?_, ?_⟩
+    · obtain ⟨_, _, _, _, _, _, _, _, _, h1⟩ := hextra x hx
+      obtain ⟨_, _, _, _, _, _, _, _, _, h2⟩ := hextra ez (by rw [hsplit]; simp)
+      rw [h1, h2]
+    · rw [hsplit] at hx
+      rcases List.mem_append.mp hx with hx | hx
+      · exact posLe_of_lt (hsx.2.2 x hx ez (by simp))
+      · simp at hx; subst hx; exact posLe_refl _
+  refine ⟨hout, by rw [hs1]; exact hshape, hpk, by rw [hs1, hopt]; exact hropt, hactive1, ?_, ?_, ?_, hfidsfact, extra, ?_, ?_, ?_, hcover, hmarks⟩
   · -- the visible index
     rw [hs1, hkv, hrkv]
     refine (rawFold_vis extra s.kv h.sorted ?_).1
@@ -949,7 +1002,7 @@ theorem remove_step (s s1 : State) (now : Nat) (h : MInv s now) (f : File) (hf :
     (hextra : ∀ x ∈ extra, s.activeFid < x.2.1 ∧ x.1.txid ∈ s1.committed ∧ x.1.ds = dsKV ∧ ¬ x.1.size > s.opt.seg ∧
         ∃ p ∈ f.recs, isSel s f now p = true ∧ x.1.bucket = p.2.bucket ∧ x.1.key = p.2.key ∧ vrec x.1 = vrec p.2 ∧ x.1.flag = p.2.flag)
     (hcover : ∀ p ∈ f.recs, isSel s f now p = true → ∃ x ∈ extra, x.1.bucket = p.2.bucket ∧ x.1.key = p.2.key)
-    (hmin : ∀ g ∈ s.files, f.fid ≤ g.fid) :
+    (hmin : ∀ g ∈ s.files, f.fid ≤ g.fid) (hexm : MarkedLog extra) :
     MInv (dropFile s1 f.fid) now := by
   -- ids: the removed file is below the active one
   obtain ⟨pre0, a0, hf0, ha0, hpre0⟩ := h.shape.split
@@ -980,8 +1033,30 @@ theorem remove_step (s s1 : State) (now : Nat) (h : MInv s now) (f : File) (hf :
   have hextra_keep : ∀ x ∈ extra, x.2.1 ≠ f.fid := fun x hx => by have := (hextra x hx).1; omega
   have hsorted_log1 := log_sorted s1.files hpk1.fids hpk1.offs
   rw [hlog, List.pairwise_append] at hsorted_log1
+  -- a rewritten record has the flag and times of the record it copies
+  have hextra_ok : ∀ x ∈ extra, (x.1.flag = flagSet ∨ x.1.flag = flagDelete) ∧ x.1.ts + x.1.ttl < 2 ^ 64 := by
+    intro x hx
+    obtain ⟨_, _, _, _, p, hp, _, _, _, hv, hfl⟩ := hextra x hx
+    have hpm := mem_allRecs_of s.files f hf p hp
+    have hb := h.bounds _ hpm
+    have hfp := (h.recs _ hpm).2.2
+    simp only [] at hb hfp
+    unfold vrec at hv
+    simp only [Prod.mk.injEq] at hv
+    exact ⟨by rw [hfl]; exact hfp, by rw [hv.2.1, hv.2.2.1]; exact hb⟩
+  have hbounds2 : ∀ x ∈ allRecs (dropFile s1 f.fid).files, x.1.ts + x.1.ttl < 2 ^ 64 := by
+    intro x hx
+    rcases ((hmem2 x).mp hx).1 with hxo | hxe
+    · exact h.bounds x hxo
+    · exact (hextra_ok x hxe).2
+  have hidxok2 : AllB (dropFile s1 f.fid).kv fun _ _ i => (i.r.flag = flagSet ∨ i.r.flag = flagDelete) ∧ i.r.ts + i.r.ttl < 2 ^ 64 := by
+    intro b m p hm hp
+    have hm' : aget? (rawFold s.kv extra) b = some m := by rw [← hkv]; exact hm
+    rcases rawFold_entries extra s.kv h.sorted b m p hm' hp with ⟨x, hx, _, hpx⟩ | ⟨m0, hm0, hp0, _⟩
+    · subst hpx; exact hextra_ok x hx
+    · exact h.idxok b m0 p hm0 hp0
   refine ⟨⟨⟨pre1.filter (·.fid != f.fid), a1, hfilt, ha1, fun g hg => hpre1 g (List.mem_filter.mp hg).1⟩, hshape1.hint, ?_, ?_⟩,
-    ⟨?_, ?_, ?_⟩, ?_, hsorted1, ?_, ?_, ?_⟩
+    ⟨?_, ?_, ?_⟩, ?_, hbounds2, hidxok2, hsorted1, ?_, ?_, ?_, ?_⟩
   · -- still linked: the removed file is not the active one
     show (s1.activeUnlinked || f.fid == s1.activeFid) = false
     rw [hshape1.linked]
@@ -1110,6 +1185,20 @@ theorem remove_step (s s1 : State) (now : Nat) (h : MInv s now) (f : File) (hf :
     rcases rawFold_entries extra s.kv h.sorted b m p hm' hp with ⟨x, hx, _, hpx⟩ | ⟨m0, hm0, hp0, _⟩
     · subst hpx; exact (hextra x hx).2.1
     · exact hcom _ (h.committedIdx b m0 p hm0 hp0)
+  · -- commit marks: a remaining record's mark lies at or after it, hence not in the removed (lowest) file
+    intro x hx
+    have hx2 := (hmem2 x).mp hx
+    rcases hx2.1 with hxo | hxe
+    · obtain ⟨y, hy, hys, hyt, hyp⟩ := h.marks x hxo
+      refine ⟨y, (hmem2 y).mpr ⟨Or.inl hy, ?_⟩, hys, hyt, hyp⟩
+      obtain ⟨g, hg, hgfid, _⟩ := mem_allRecs s.files x hxo
+      have h1 := hmin g hg
+      have h2 := hx2.2
+      unfold posLe posOf at hyp
+      simp only [] at hyp
+      omega
+    · obtain ⟨y, hy, hys, hyt, hyp⟩ := hexm x hxe
+      exact ⟨y, (hmem2 y).mpr ⟨Or.inr hy, hextra_keep y hy⟩, hys, hyt, hyp⟩
 
 /-! ### the loop over the files -/
 
@@ -1141,14 +1230,14 @@ theorem merge_file_step (s : State) (now : Nat) (h : MInv s now) (f : File) (hf 
       have : p.2 ∈ recs := List.mem_map.mpr ⟨p, List.mem_filter.mpr ⟨hp, hsel⟩, rfl⟩
       rw [hne] at this; cases this
     have hm := remove_step s s now h f hf [] h.shape h.packed rfl (Nat.le_refl _) hfne h.sorted (fun _ hid => hid)
-      (fun g hg => Or.inl (List.mem_map.mpr ⟨g, hg, rfl⟩)) (by simp) rfl (fun x hx => by cases hx) hnosel hmin
+      (fun g hg => Or.inl (List.mem_map.mpr ⟨g, hg, rfl⟩)) (by simp) rfl (fun x hx => by cases hx) hnosel hmin (fun x hx => by cases hx)
     have hs2 : s2 = dropFile s f.fid := by show dropFile (rewrite s recs tid).1 f.fid = _; rw [hrw]
     rw [hs2, hrw]
     refine ⟨rfl, hm, rfl, fun _ hid => hid, rfl, Nat.le_refl _, ?_⟩
     intro g hg
     have := List.mem_filter.mp hg
     exact Or.inl ⟨List.mem_map.mpr ⟨g, this.1, rfl⟩, by simpa using this.2⟩
-  · obtain ⟨hout, hsh1, hpk1, hopt1, hact1, hvis1, hsorted1, hcom1, hfids1, extra, hlog1, hkv1, hextra1, hcover1⟩ :=
+  · obtain ⟨hout, hsh1, hpk1, hopt1, hact1, hvis1, hsorted1, hcom1, hfids1, extra, hlog1, hkv1, hextra1, hcover1, hmarks1⟩ :=
       rewrite_step s now h f hf tid hne
     have hfle : f.fid ≤ s.activeFid := by
       obtain ⟨pre0, a0, hf0, ha0, hpre0⟩ := h.shape.split
@@ -1159,7 +1248,7 @@ theorem merge_file_step (s : State) (now : Nat) (h : MInv s now) (f : File) (hf 
     have hact1' : s.activeFid < (rewrite s recs tid).1.activeFid := hact1
     have hfne1 : f.fid ≠ (rewrite s recs tid).1.activeFid := by omega
     have hm := remove_step s (rewrite s recs tid).1 now h f hf extra hsh1 hpk1 hopt1 (Nat.le_of_lt hact1') hfne1
-      hsorted1 hcom1 hfids1 hlog1 hkv1 hextra1 hcover1 hmin
+      hsorted1 hcom1 hfids1 hlog1 hkv1 hextra1 hcover1 hmin hmarks1
     refine ⟨hout, hm, hvis1, hcom1, hopt1, Nat.le_of_lt hact1', ?_⟩
     intro g hg
     have hgf := List.mem_filter.mp hg
@@ -1318,5 +1407,75 @@ theorem merge_spec (s : State) (now : Nat) (txids : List Nat) (h : MInv s now) :
     rcases List.mem_append.mp hg with hg | hg
     · have := hpre0 g hg; omega
     · simp at hg; subst hg; omega
+
+/-! ### commit marks along histories -/
+
+theorem markedLog_append (L extra : List LogRec) (t : List Rec) (tid : Nat) (hL : MarkedLog L)
+    (hsorted : (L ++ extra).Pairwise (fun x y => posLt (posOf x) (posOf y)))
+    (hex : extra.map (·.1) = marked t) (hne : t ≠ []) (htid : ∀ x ∈ extra, x.1.txid = tid) : MarkedLog (L ++ extra) := by
+  obtain ⟨init, z, hmz, hzs⟩ := marked_snoc t hne
+  rw [← hex] at hmz
+  obtain ⟨einit, elast, hsplit, _, hl2⟩ := List.map_eq_append_iff.mp hmz
+  obtain ⟨ez, hez, _⟩ : ∃ ez, elast = [ez] ∧ True := by
+    cases elast with
+    | nil => simp at hl2
+    | cons a as =>
+      cases as with
+      | nil => exact ⟨a, rfl, trivial⟩
+      | cons _ _ => simp at hl2
+  subst hez
+  have hezs : ez.1.status = 1 := by simp at hl2; rw [hl2]; exact hzs
+  rw [List.pairwise_append] at hsorted
+  have hsx := hsorted.2.1
+  rw [hsplit, List.pairwise_append] at hsx
+  intro x hx
+  rcases List.mem_append.mp hx with hxo | hxe
+  · obtain ⟨y, hy, h1, h2, h3⟩ := hL x hxo
+    exact ⟨y, by simp [hy], h1, h2, h3⟩
+  · refine ⟨ez, by rw [hsplit]; simp, hezs, ?_, ?_⟩
+    · rw [htid x hxe, htid ez (by rw [hsplit]; simp)]
+    · rw [hsplit] at hxe
+      rcases List.mem_append.mp hxe with hxe | hxe
+      · exact posLe_of_lt (hsx.2.2 x hxe ez (by simp))
+      · simp at hxe; subst hxe; exact posLe_refl _
+
+theorem markedLog_commit (s : State) (t : List Rec) (hi : LogInv s) (hp : Packed s) (ht : KVTx s.opt.seg t)
+    (hm : MarkedLog (allRecs s.files)) : MarkedLog (allRecs (commit s t).1.files) := by
+  have hp' := commit_packed s t hi hp ht
+  obtain ⟨hne, tid, hr⟩ := ht
+  obtain ⟨hfine, _, _, ⟨extra, hex, hfiles, _⟩, _⟩ := commitLoop_kv t tid s hi.shape hr
+  have hds : ∀ r ∈ t, r.ds = dsKV := fun r hr' => (hr r hr').1
+  have hemp : t.isEmpty = false := by cases t with | nil => exact absurd rfl hne | cons _ _ => rfl
+  have hcommit : commit s t = ((commitLoop s t).1, .ok ()) := by
+    unfold commit
+    simp only [hemp, Bool.false_eq_true, if_false]
+    rw [show commitLoop s t = ((commitLoop s t).1, (commitLoop s t).2) from rfl]
+    simp only [hfine, Bool.not_true, Bool.false_eq_true, if_false]
+    rw [buildIdxes_kv_id t _ hds]
+    simp
+  rw [hcommit] at hp' ⊢
+  have hsorted := log_sorted _ hp'.fids hp'.offs
+  show MarkedLog (allRecs (commitLoop s t).1.files)
+  rw [hfiles] at hsorted ⊢
+  refine markedLog_append _ extra t tid hm hsorted hex hne ?_
+  intro x hx
+  exact marked_txid t tid (fun r hr' => (hr r hr').2.2) x.1 (by rw [← hex]; exact List.mem_map.mpr ⟨x, hx, rfl⟩)
+
+theorem markedLog_ops (ops : List Op) (s : State) (hi : LogInv s) (hp : Packed s) (hm : MarkedLog (allRecs s.files))
+    (hok : OpsOk s ops) : MarkedLog (allRecs (ops.foldl stepOp s).files) := by
+  induction ops generalizing s with
+  | nil => exact hm
+  | cons op rest ih =>
+    cases op with
+    | commit t =>
+      obtain ⟨ht, hrest⟩ := hok
+      exact ih _ (commit_kv s t hi ht).2.1 (commit_packed s t hi hp ht) (markedLog_commit s t hi hp ht hm) hrest
+    | reopen o =>
+      refine ih _ (logInv_reopen s hi o) (reopen_packed s hi hp o) ?_ hok
+      show MarkedLog (allRecs (openDB o s.files).1.files)
+      rw [(open_rebuilds s hi o).2.2.1]; exact hm
+
+theorem markedLog_init (opt : Opts) : MarkedLog (allRecs (openDB opt []).1.files) := by
+  intro x hx; simp [openDB, fileEnsure, allRecs] at hx
 
 end NutsProofs.MergeKV
